@@ -35,6 +35,13 @@ observation of a transaction is
   styles / stores), a slice (with or without spare capacity) the caller overwrites after the call.  The expectation does not depend on it: a
   registration is registered for the kinds its call named WHEN IT WAS MADE (Properties/C08.v registration_types_fixed over Store/EventsReg.v, the
   slice / append model of the registration code); the driver plays the caller's program against that model and takes the listeners' types from it;
+* sixth strengthening (seeded C08-w6-1): what the CALLER does with the entity structs it passed to Create / Update between the operation and the
+  commit (pseudo veto @caller, store_c08_caller.go): ONE scratch struct for every create / update of a transaction (re-made or re-filled in place),
+  id / field map / pointed-to strings / string lists / tag map / system flag changed or nil-ed after the call or at the end of the function, entities
+  loaded before a delete and changed afterwards.  The expectation does not depend on it: a listener is handed the COMMITTED state of the operation's
+  entity (final state for create / update, last state for delete; Properties/C08.v delivered_state, and delivered_state_fixed_at_operation over
+  Store/EventsCaller.v, the heap model of the payload pointers); the delivered-state oracle compares digest, id and tags (every struct of the C08
+  executor carries the tags {"id": <id>}; a recorder handed other tags prints a TAGS token) with the database;
 * correspondence: the same line is printed by the extracted machine (Store/Events.v run_tx_v,
   delivered_to; Store/TxShared.v shared_update - an extension of Store/TxHooks.v db_update - for the program) and compared token by token (results, events, deliveries incl. state digests, hooks).
 """
@@ -47,7 +54,7 @@ import vlib
 
 PID = "C08"
 FILES = ["theories/Properties/C08.v", "theories/Examples/C08Examples.v", "theories/Examples/C08Wirings.v", "theories/Examples/C08Shared.v",
-         "theories/Examples/C08Regs.v"]
+         "theories/Examples/C08Regs.v", "theories/Examples/C08Caller.v"]
 
 FILTER_STYLES = ["ts", "ta", "fs", "fa", "us", "ua", "is", "ia"]
 STATE_STYLES = ("ts", "ta", "fs", "fa", "us", "ua", "c", "uc")
@@ -178,6 +185,40 @@ def ctx_note(txs_parsed, io, k):
         return (" [Db.Batch call issued together with %d failing Db.Batch calls (%s; lower case = enqueued after it): bbolt runs them in one "
                 "transaction, rolls it back when a partner fails and re-runs the innocent function with the same context]" % (len(partners), partners))
     return ""
+
+
+# ------------------------------------------------------------------ what the caller does with its entity structs (store_c08_caller.go)
+CALLER_POLICY = dict(n="a struct of its own per operation",
+                     r="ONE scratch struct re-filled (fresh maps) for every create / update of the transaction",
+                     k="ONE scratch struct whose maps, lists and tag map are cleared and re-filled in place for every create / update of the transaction")
+CALLER_MUT = dict(i="overwrites its id with one that is never stored", f="replaces the entries of its field map", p="overwrites the strings its field map points to",
+                  s="changes its string lists in place", t="changes its tag map in place", y="flips its system flag", z="sets its field map, lists and tags to nil")
+
+
+def caller_spec(tx):
+    spec = pseudo(tx, "@caller")
+    if spec is None:
+        return None
+    try:
+        return bytes.fromhex(spec).decode() if spec != "-" else ""
+    except ValueError:
+        return spec
+
+
+def caller_note(tx):
+    """the behaviour of the transaction's caller towards the structs it passes - part of the violation text.  The expectation
+    does not depend on it: an event carries the committed state of its operation's entity"""
+    spec = caller_spec(tx)
+    if not spec:
+        return ""
+    muts = [CALLER_MUT[c] for c in spec[1:] if c in CALLER_MUT]
+    when = "at the end of the transaction function" if "e" in spec[1:] else "right after the operation returned"
+    txt = " [the caller passes %s to Create / Update" % CALLER_POLICY.get(spec[0], spec[0])
+    if muts:
+        txt += "; %s - before the commit - it %s" % (when, ", ".join(muts))
+    if "l" in spec[1:]:
+        txt += "; before a delete it loads the entity with FindById and treats the loaded struct the same way afterwards"
+    return txt + "; listeners run after the commit and must be handed the COMMITTED state of the operation's entity, not the caller's memory]"
 
 
 # ------------------------------------------------------------------ hook programs (alphabet: store_c08.go c08Exec)
@@ -403,6 +444,31 @@ def expected_events(sch, tx, pre, post):
     return exp
 
 
+def unhex(h):
+    try:
+        return bytes.fromhex(h).decode() if h != "-" else ""
+    except ValueError:
+        return h
+
+
+def tags_violation(tags, cnote, k):
+    """every struct the C08 executor passes to Create / Update carries the tags {"id": <entity id>}, so that is what every stored
+    entity has; a recorder handed an entity with other tags prints a TAGS token (store_c08_caller.go tagCheck)"""
+    p = tags[0].split(":")
+    seen = p[5]
+    if seen.startswith("{"):
+        seen = "{%s}" % ", ".join("=".join(repr(unhex(x)) for x in kv.split("=")) for kv in seen[1:-1].split(",") if kv)
+    return ("C08:delivered-state", "style %s on %s, %s of %s: the entity handed to the listener carries the tags %s, the database holds {'id'=%r} "
+            "(%d such deliveries)%s" % (p[1], p[2], p[3], p[4], seen, unhex(p[4]), len(tags), cnote), k)
+
+
+def drop_id(cnt, idpos):
+    out = Counter()
+    for key, n in cnt.items():
+        out[key[:idpos] + key[idpos + 1:]] += n
+    return out
+
+
 def oracle(sch, mode, progs, regs, txs, io):
     out = []
     prev = Facts([])
@@ -414,12 +480,16 @@ def oracle(sch, mode, progs, regs, txs, io):
         lm = [t for t in a["other"] if t.startswith("LM:")]
         ls = [t for t in a["other"] if t.startswith("LS:")] + (lm if not a["commit"] else [])
         note = ctx_note(parsed, io, k)
+        cnote = caller_note(tx)
         raw = raw_spec(tx)
         late = [t for t in a["other"] if t.startswith("LATE:")]
         if "ASYNC-TIMEOUT" in a["other"]:
             out.append(("C08:async-timeout", "asynchronous listeners / commit actions did not arrive within 10 s", k))
         if late:
             out.append(("C08:late-delivery", "deliveries after the transaction's observation: %s" % late[:3], k))
+        tags = [t for t in a["other"] if t.startswith("TAGS:")]
+        if tags:
+            out.append(tags_violation(tags, cnote, k))
         if not a["commit"]:
             if a["events"] or ls:
                 out.append(("C08:events-after-rollback", "listeners ran for a rolled-back transaction: %s%s" % ((a["events"] + ls)[:4], note), k))
@@ -466,16 +536,45 @@ def oracle(sch, mode, progs, regs, txs, io):
         for t in ls:
             p = t.split(":")
             have[(p[1], p[2], p[3], p[4], p[6] if len(p) > 6 else "")] += 1
+        named = Counter(op.get("id") for op in tx["ops"] if op["kind"] in ("C", "UP", "D"))
+        written = Counter(op.get("id") for op in tx["ops"] if op["kind"] in ("C", "UP"))
+        changed_ids = set(i for (_s, _c, i, _p) in exp)
+
+        def constraint_payload_wrong():
+            """the constraints are handed the event (its EntityId) next to the entity: did one of them see a state / tags that are
+            not the database's for the event's entity?"""
+            if tags:
+                return True
+            for t in ls:
+                p = t.split(":")
+                if p[1] in ("c", "uc") and named[p[4]] <= 1 and not (p[3] == "D" and written[p[4]] > 0):
+                    ref = (prev if p[3] == "D" else post).digest(sch, p[2], p[4])
+                    if ref is not None and p[5] != ref:
+                        return True
+            return False
+
         if have != want and got == exp:
             missing, surplus = want - have, have - want
             style = sorted(set(x[0] for x in list(missing) + list(surplus)))[0]
-            out.append(("C08:listener-delivery-" + (style if style in ("c", "uc") else style[0]),
-                        "deliveries per registration style differ from one per event: missing %s surplus %s" % (
-                            sorted(missing.elements())[:4], sorted(surplus.elements())[:4]), k))
+            if drop_id(missing, 3) == drop_id(surplus, 3) and (not any(x[3] in changed_ids for x in surplus) or constraint_payload_wrong()):
+                # every style was notified as often as it had to be, per store and change - but a listener only gets the entity,
+                # and the entities handed over carry ids (or are nil) that no committed change of this transaction has, or the
+                # constraints - which see the event's id next to the entity - were handed states that are not their event's entity's:
+                # a wrong state was delivered (ids of OTHER changes of the transaction alone would point to a routing problem)
+                y, s, ch, i, _ = sorted(missing)[0]
+                wrong = sorted(set(unhex(x[3]) if x[3] != "NIL" else "<nil entity>" for x in surplus if x[:3] == (y, s, ch)))
+                right = sorted(set(unhex(j) for (s2, ch2, j, _p) in exp if (s2, ch2) == (s, ch)))
+                out.append(("C08:delivered-state", "style %s on %s: the %s listeners were notified %d times, once per committed %s - but no notification carried "
+                            "the entity %r: the entities handed over have the ids %s, the committed %ss of the transaction on %s are those of %s (%d deliveries "
+                            "of all styles carry an id that differs from their event's entity)%s" % (
+                                y, s, CHANGE_WORD[ch], sum(n for (y2, s2, ch2, _i, _p), n in have.items() if (y2, s2, ch2) == (y, s, ch)),
+                                CHANGE_WORD[ch], unhex(i), wrong, CHANGE_WORD[ch], s, right, sum(surplus.values()), cnote), k))
+            else:
+                out.append(("C08:listener-delivery-" + (style if style in ("c", "uc") else style[0]),
+                            "deliveries per registration style differ from one per event: missing %s surplus %s%s" % (
+                                sorted(missing.elements())[:4], sorted(surplus.elements())[:4], cnote), k))
         # a registration naming several change types: exactly one notification per committed change on its store
         # whose kind it names, none for the others (whatever the order of the types, sync or async)
-        named = Counter(op.get("id") for op in tx["ops"] if op["kind"] in ("C", "UP", "D"))
-        written = Counter(op.get("id") for op in tx["ops"] if op["kind"] in ("C", "UP"))
         if regs and got == exp:
             wantm, havem = Counter(), Counter()
             for r, (style, store, types, _how) in enumerate(regs):
@@ -485,7 +584,14 @@ def oracle(sch, mode, progs, regs, txs, io):
             for t in lm:
                 p = t.split(":")
                 havem[(int(p[1]), p[5])] += 1
-            if havem != wantm:
+            if havem != wantm and drop_id(wantm - havem, 1) == drop_id(havem - wantm, 1) and (
+                    not any(j in changed_ids for (_r, j) in (havem - wantm)) or constraint_payload_wrong()):
+                # as many notifications per registration as there had to be, with entities of other ids (see above)
+                r, i = sorted(wantm - havem)[0]
+                wrong = sorted(set(unhex(j) if j != "NIL" else "<nil entity>" for (r2, j) in (havem - wantm) if r2 == r))
+                out.append(("C08:delivered-state", "the listener registered by %s was notified as often as it had to be, but never with entity %r of store %s: "
+                            "the entities it was handed have the ids %s%s" % (reg_text(regs[r], regs), unhex(i), regs[r][1], wrong, cnote), k))
+            elif havem != wantm:
                 r, i = sorted(set((wantm - havem) | (havem - wantm)))[0]
                 changes = sorted(ch for (s, ch, j, _), n in exp.items() for _ in range(n) if s == regs[r][1] and j == i)
                 out.append(("C08:multi-type-listener-count",
@@ -493,7 +599,7 @@ def oracle(sch, mode, progs, regs, txs, io):
                             "change of a kind the registration named when it was made: %s; committed changes of that entity on the store: %s)%s" % (
                                 reg_text(regs[r], regs), havem[(r, i)], i, regs[r][1], wantm[(r, i)],
                                 "/".join(CHANGE_WORD[c] for c in "CUD" if c in regs[r][2].upper()),
-                                ", ".join(CHANGE_WORD[c] for c in changes) or "none", note), k))
+                                ", ".join(CHANGE_WORD[c] for c in changes) or "none", note + cnote), k))
             else:
                 for t in lm:
                     p = t.split(":")
@@ -504,8 +610,8 @@ def oracle(sch, mode, progs, regs, txs, io):
                         continue
                     ref = (prev if "D" in chs else post).digest(sch, store, hid)
                     if ref is not None and dg != ref:
-                        out.append(("C08:delivered-state", "the listener registered by %s received %s for the %s of %s, the database holds %s" % (
-                            reg_text(regs[r], regs), dg, CHANGE_WORD[list(chs)[0]], hid, ref), k))
+                        out.append(("C08:delivered-state", "the listener registered by %s received %s for the %s of %s, the database holds %s%s" % (
+                            reg_text(regs[r], regs), dg, CHANGE_WORD[list(chs)[0]], hid, ref, cnote), k))
                         break
         # the delivered state: final state (create/update), last state (delete) - decidable from the facts
         # when a single operation of the transaction names the entity
@@ -520,8 +626,8 @@ def oracle(sch, mode, progs, regs, txs, io):
             if ref is None:
                 continue
             if dg != ref:
-                out.append(("C08:delivered-state", "style %s on %s, %s of %s received %s, the database holds %s" % (
-                    p[1], store, ch, hid, dg, ref), k))
+                out.append(("C08:delivered-state", "style %s on %s, %s of %s received %s, the database holds %s%s" % (
+                    p[1], store, ch, hid, dg, ref, cnote), k))
                 break
         prev = post
     return out
@@ -537,6 +643,9 @@ def oracle_swallow(sch, progs, txs, io):
         ls = [t for t in a["other"] if t.startswith("LS:")]
         if "ASYNC-TIMEOUT" in a["other"]:
             out.append(("C08:async-timeout", "asynchronous listeners / commit actions did not arrive within 10 s", k))
+        tags = [t for t in a["other"] if t.startswith("TAGS:")]
+        if tags:
+            out.append(tags_violation(tags, "", k))
         # a swallowed veto is not a failed function: the pre-commit actions of a PANIC / failed body are
         # judged like everywhere else
         out += [(key, desc, k) for key, desc in hook_oracle("upd", prog, a)]
@@ -578,16 +687,18 @@ def main(argv):
                      "(pinned contract, modelled in Store/TxShared.v: live_pres / dead_pres / tc_runs)",
                      "a listener registration names every change kind at most once (EntityCreated together with EntityCreatedAsync asks for two "
                      "notifications per create and is outside 'registered for that change type')",
+                     "the caller changes the structs it passed (and structs FindById handed to it) only between the operation and the end of the transaction "
+                     "function; what it does to them is irrelevant to the expectation: listeners are handed the committed state of the operation's entity",
                      "cascade deletes follow an acyclic store order (wf_events_b); a cascade cycle does not terminate (C04)",
                      "an Extended() child store regards every parent entity as its own: deleting a parent entity without extension data "
                      "notifies the extended store's listeners (design/C08.md (a))"]
     proof_ok = c.proof_step(FILES)
     c.cov["trusted_base"] = [
         "Coq 8.16.1 kernel (coqc; coqchk in the thorough tier); vm_compute in Examples only; no axioms",
-        "hand-written store machine coq/theories/Store/Model.v, its event layer Store/Events.v, the hook layers Store/TxHooks.v / Store/TxShared.v and the slice model of the registration code Store/EventsReg.v",
+        "hand-written store machine coq/theories/Store/Model.v, its event layer Store/Events.v, the hook layers Store/TxHooks.v / Store/TxShared.v and the slice model of the registration code Store/EventsReg.v, the heap model of the event payload pointers Store/EventsCaller.v",
         "bbolt Tx.OnCommit / rollback; the Go scheduler for asynchronous listeners (awaited, cap 10 s)",
         "extraction (ExtrOcamlBasic only) + extraction/c08_driver.ml + drv_common.ml",
-        "Go harness store.go / store_c08.go / store_c08_gen.go / store_c08_w2.go / store_c08_w3.go / store_c08_regpass.go and the oracle in checks/c08.py",
+        "Go harness store.go / store_c08.go / store_c08_gen.go / store_c08_w2.go / store_c08_w3.go / store_c08_regpass.go / store_c08_caller.go and the oracle in checks/c08.py",
     ]
     model = vlib.build_model("C08")
     harness, err = vlib.build_harness()
@@ -691,7 +802,13 @@ def main(argv):
                      "bolt.Batch) wrapped with NewTxMutateContext, 25% of them registering through ctx.GetSystemContext(), 12% given up by the caller after "
                      "their changes, with commit actions / pre-commit actions (never run there) right after the constructor, between the operations and "
                      "inside joined Db.Update / Db.Batch calls; 22-25% of all programs do part of their work (0..all operations, registrations, nested "
-                     "calls) with a SECOND context NewTxMutateContext(ctx.Context(), ctx.Tx()); asynchronous deliveries "
+                     "calls) with a SECOND context NewTxMutateContext(ctx.Context(), ctx.Tx()); in 45% of the Db.Update / Db.Batch histories 70% of the "
+                     "transactions (6% elsewhere) have a caller that reuses / changes the entity structs it passes: a struct per operation (2/7), ONE scratch struct "
+                     "re-made per create / update (3/7) or re-filled in place - same maps, same list arrays, same tag map - (2/7), half of the scratch-struct "
+                     "callers running a loop of 2-3 creates through one store; after the operation returned (70%) or at the end of the function (30%) the caller "
+                     "overwrites the id with a never-stored one, replaces the field map's entries, writes through its string pointers, changes the string lists "
+                     "in place, changes the tag map in place, flips the system flag, nils maps / lists / tags (10% nothing but the reuse, 30% one of them, 60% each "
+                     "with 40%); 50% load the entity with FindById before a delete and change the loaded struct afterwards; asynchronous deliveries "
                      "awaited. Non-trivial: a history with a committed transaction that delivered more than one event; distinct by case text.")
     ks = sorted(set((0, len(cases) // 2, max(0, len(cases) - 1))))
     c.cov["samples"] = [dict(case=cases[k][:1200], impl=impl[k][:1200], model=modl[k][:1200]) for k in ks if k < len(cases)]
